@@ -62,3 +62,13 @@ CLAIMS["C12"] = {
     "note": "Time is the mocked quanta clock; the exporter leg uses distinct names per kind as the exporter requires.",
     "technique": "runtime monitoring: reference idle state machine stepped in lock-step with the real recency/registry under a mock clock",
 }
+CLAIMS["C07"] = {
+    "text": "Exploration: thousands of configuration x metric-set x history cases rendered and parsed back by an independent strict parser and compared with a reference model of what was recorded (totals, last gauge bits, cumulative buckets, +Inf, sums, merged labels, first description, type, idempotent re-render); concurrent recorder/render/upkeep runs are judged by per-render interval bounds (completed-before-call <= value <= invoked-before-return, monotone across non-overlapping renders) and exact conservation at quiescence, also with random holds injected at the bucket's hook points.",
+    "note": "Backslash-containing values are outside the round-trip claim; summaries' quantile values are not compared (they age with real time). Relies on C05's bucket for sample conservation under concurrency.",
+    "technique": "runtime monitoring: render() parsed by an independent strict parser and compared with a reference model per history; interval/conservation oracle over concurrent recorder vs render histories",
+}
+CLAIMS["C08"] = {
+    "text": "Exploration: thousands of renders over hostile strings in every user-controlled position must satisfy an independent strict grammar and the family-structure rules, and an injection probe checks that user data containing complete fake lines never adds or removes a family or label. Held = every output observed parsed, was well structured and contained exactly the model's families.",
+    "note": "The strict parser is the trusted base; values with backslashes are checked for well-formedness only, as the property states.",
+    "technique": "runtime monitoring: strict exposition-format parser + family-structure checker + injection probe over renders of hostile inputs",
+}
